@@ -472,7 +472,7 @@ func ruleReadFull(p *Prog, r *RuleResult) {
 			continue
 		}
 		// a return of a loaded sentinel (io.EOF) is not a success
-		if u, ok := ret.Results[1].(*ssa.UnOp); ok {
+		if u, ok := rvals(ret)[1].(*ssa.UnOp); ok {
 			if _, isG := u.X.(*ssa.Global); isG {
 				continue
 			}
